@@ -133,3 +133,32 @@ fn d11_known_required_outer_field_masks_subcommand_help() {
     // with the option given, help of the innermost command is printed as C10 demands
     assert!(matches!(p.run_inner(&["--req", "1", "cmd", "--help"]), Err(ParseFailure::Stdout(..))));
 }
+
+/// D1 (C04): fish completion (revision 9) without an application name must not panic
+#[test]
+fn d1_fish_completion_without_app_name() {
+    let p = short('a').switch().to_options();
+    let r = p.run_inner(Args::from(&["--a"]).set_comp(9));
+    assert!(matches!(r, Err(ParseFailure::Completion(_)) | Err(ParseFailure::Stdout(..)) | Err(ParseFailure::Stderr(_)) | Ok(_)));
+}
+
+/// D2 (C15): the zsh "nothing matches" branch must quote the typed word
+#[test]
+fn d2_zsh_echo_of_typed_word_is_quoted() {
+    let p = short('a').switch().to_options();
+    let out = p.run_inner(Args::from(&["$(id);x"]).set_name("app").set_comp(7)).unwrap_err().unwrap_stdout();
+    assert_eq!(out, "compadd -- '$(id);x'\n", "{:?}", out);
+}
+
+/// D3 (C15): bash output is one directive per line, also for File/Dir completers without a mask
+#[test]
+fn d3_bash_filedir_directive_ends_its_line() {
+    let f = short('f').help("flag").switch();
+    let x = positional::<String>("X").complete_shell(ShellComp::File { mask: None });
+    let p = construct!(f, x).to_options();
+    let out = p.run_inner(Args::from(&[""]).set_name("app").set_comp(8)).unwrap_err().unwrap_stdout();
+    for line in out.lines() {
+        assert!(!(line.contains("_filedir") && line.contains("COMPREPLY")), "two directives on one line: {:?}", line);
+    }
+    assert!(out.contains("_filedir\n"), "{:?}", out);
+}
